@@ -38,7 +38,11 @@ def run_demo(mdir, crate):
         tdir = os.path.join(WT, CRATE_DIRS[crate], "tests")
         os.makedirs(tdir, exist_ok=True)
         shutil.copy(os.path.join(mdir, "demo.rs"), os.path.join(tdir, "seeded_demo.rs"))
-        r = sh(f"cd {WT} && cargo test -p {crate} --offline --test seeded_demo 2>&1 | tail -40", env=env)
+        import re
+        head = open(os.path.join(mdir, "demo.rs"), errors="replace").read(3000)
+        m = re.search(r"--features[ =]([A-Za-z0-9_,-]+)", head)
+        feat = f"--features {m.group(1)}" if m else ""
+        r = sh(f"cd {WT} && cargo test -p {crate} --offline {feat} --test seeded_demo 2>&1 | tail -40", env=env)
         os.remove(os.path.join(tdir, "seeded_demo.rs"))
         out = clean(r.stdout)
         ok = "test result: ok" in out and "FAILED" not in out and "error" not in out.split("test result")[0][-400:]
